@@ -157,7 +157,7 @@ Section SINGLE.
   Variable ao : andor.
   Definition q1 : script := Script {| sel_attr := Some e; sel_agg := None |} ao None.
 
-  Definition grouped1 (conds : list expr) : select := grouped_stmt [("index_search", stmt1 c e "" conds)] None (lim_of c).
+  Definition grouped1 (conds : list expr) : select := grouped_stmt "" false [("index_search", stmt1 c e "" conds)] None (lim_of c).
 
   Lemma index_limit_grouped conds : index_limit c (index_groupby "" (stmt1 c e "" conds)) = grouped1 conds.
   Proof. unfold index_limit, grouped1, lim_of. destruct (Z.eqb (limit c) 0); reflexivity. Qed.
@@ -229,12 +229,12 @@ Section SINGLE.
       rewrite (index_search_bridge re_match parse_float hash64 c d e "" conds Hkeys Hc Hlits Hlen Hdepth).
       change (String.eqb "index_search" "index_grouped") with false. cbv iota.
       rewrite eval_sel_S. unfold grouped1.
-      rewrite (grouped_bridge re_match parse_float hash64 [(attrs_table c, map row_of_irow d)]
+      rewrite (grouped_bridge re_match parse_float hash64 [(attrs_table c, map row_of_irow d)] "" false
                  (eval_sel re_match parse_float hash64 [(attrs_table c, map row_of_irow d)] 11)
                  [("index_search", map mspan_row (T conds))] (T conds) eq_refl None (fun _ => true) eq_refl
                  (fun h m0 rest' Hn => ltac:(discriminate Hn)) (fun _ _ => eq_refl)).
       rewrite Hans. cbn [option_map]. rewrite String.eqb_refl. rewrite map_map.
-      apply all_some_map_ext. intros g _. unfold g_row. cbn [lookup String.eqb Ascii.eqb Bool.eqb].
+      apply all_some_map_ext. intros g _. unfold g_row. cbn [app lookup String.eqb Ascii.eqb Bool.eqb].
       now rewrite all_some_VStr.
     - rewrite sem_single_round.
       exact (answer_ok (T conds) matched1 (mspan_of parse_float "") (fun _ => eq_refl) (fun _ => eq_refl) (fun _ => eq_refl)
